@@ -7,14 +7,15 @@
    C07 deadline, fuel) rejects the implementation's trace. *)
 From Coq Require Import List Bool NArith.
 Import ListNotations.
-From TarpcV Require Import Base Transport Chain.
+From TarpcV Require Import Base Transport Chain ChainRespSpec.
 From TarpcV Require Client Server.
 
 Definition case := (nat * list cop * list (list cobs))%type.
 Definition model (c : case) : list (list cobs) :=
   let '(d, ops, _) := c in fst (run d ops).
 Definition monitors_ok (d : nat) (ops : list cop) (tr : list (list cobs)) : bool :=
-  c04c_ok d ops tr && c18c_ok d ops tr && c07c_ok d ops tr && c18w_ok d ops tr && cfuel_ok d ops tr.
+  c04c_ok d ops tr && c18c_ok d ops tr && c07c_ok d ops tr && c18w_ok d ops tr && cfuel_ok d ops tr
+  && c01c_ok d ops tr.   (* response integrity across hops, ChainRespSpec.v *)
 Definition check (c : case) : N :=
   let '(d, ops, tr) := c in
   verdict (trace_eqb (fst (run d ops)) tr) (monitors_ok d ops tr).
